@@ -30,6 +30,11 @@ Inductive obs :=
     Int63 value fits exactly; elaborating them costs nothing) *)
 Definition tz (l : list Uint63.int) : tape := map Uint63.to_Z l.
 
+(** direct draws from a real rand.Rand (family "draws": validates the port of
+    GoRand.v where the generator's configurations cannot reach, e.g. the
+    rejection loops): Int63n(n) = r, Intn(n) = r, Float64() * 2^63 = r *)
+Inductive draw := DInt63n (n r : Z) | DIntn (n r : Z) | DFloat (r : Z).
+
 Record case := mkCase {
   c_client : bool;
   c_vals : list value;
@@ -38,6 +43,7 @@ Record case := mkCase {
   c_steps : nat;
   c_obs : list obs;
   c_obs2 : list obs;
+  c_draws : list draw;
 }.
 
 (** ** equality of observations (doubles by their IEEE class/sign/mantissa/exponent) *)
@@ -124,6 +130,24 @@ Fixpoint client_obs (vs : list value) (e : ending) : list obs :=
       | KSync n => OSync (n >? 0) :: client_obs vs' e
       | k => OUpd (vid v) (vts v) (oval_of k) :: client_obs vs' e
       end
+  end.
+
+Definition float_scaled (f : float) : Z :=
+  match Prim2SF f with
+  | S754_zero _ => 0
+  | S754_finite false m e => Z.shiftl (Zpos m) (e + 63)
+  | _ => -1
+  end.
+
+Fixpoint draws_ok (ds : list draw) (t : tape) : bool :=
+  match ds with
+  | [] => true
+  | DInt63n n r :: ds' =>
+      match int63n n t with RV x t' => (x =? r) && draws_ok ds' t' | _ => false end
+  | DIntn n r :: ds' =>
+      match intn n t with RV x t' => (x =? r) && draws_ok ds' t' | _ => false end
+  | DFloat r :: ds' =>
+      match float64 t with RV f t' => (float_scaled f =? r) && draws_ok ds' t' | _ => false end
   end.
 
 Definition model_obs (c : case) : list obs :=
@@ -368,6 +392,13 @@ Definition class_ts_ovf (vs : list value) (l : list erec) : bool :=
                     | None => false
                     end) l.
 
+(** an overflow error may come before the value whose successor overflowed is
+    emitted (Next returns the error instead of the value): some value's latest
+    emitted (else configured) timestamp is within two steps of the end of int64 *)
+Definition ts_ovf_possible (vs : list value) (l : list erec) : bool :=
+  existsb (fun v => max_i64 <? (match newest_ts (vid v) (rev l) with Some t => t | None => vts v end)
+                               + 2 * vdmax v) vs.
+
 (** ** verdict for one case: list of (clause/step index, tag) *)
 
 Definition check_case (c : case) : list (nat * N) :=
@@ -376,12 +407,14 @@ Definition check_case (c : case) : list (nat * N) :=
   let l := erecs (c_obs c) in
   let e := end_of (c_obs c) in
   let ovf := class_ts_ovf vs l in
+  let err_ok := negb (cfg_valid cl vs) || class_width vs || ovf || ts_ovf_possible vs l in
   let ktag (t : N) : N := if ovf then 12%N else t in
-  (if list_eqb obs_eqb (c_obs c) (model_obs c) then [] else [(0%nat, 1%N)]) ++
+  (if list_eqb obs_eqb (c_obs c) (model_obs c) && draws_ok (c_draws c) (c_gtape c)
+   then [] else [(0%nat, 1%N)]) ++
   (if ts_sorted_from None l then [] else [(1%nat, ktag 2%N)]) ++
   (if rep_ok_prefix vs l && rep_fields_from vs [] l &&
       (match e with
-       | EDone => if cl && negb (cfg_valid cl vs && negb (class_width vs) && negb ovf) then true else rep_ok_done cl vs l
+       | EDone => if cl && err_ok then true else rep_ok_done cl vs l
        | _ => true
        end)
    then [] else [(2%nat, ktag 3%N)]) ++
@@ -391,7 +424,7 @@ Definition check_case (c : case) : list (nat * N) :=
    else if sync_from cl vs [] l &&
            (Nat.leb (List.length (filter (is_injected_sync cl (List.length vs)) l)) 1) &&
            (match e with
-            | EDone => (cl && negb (cfg_valid cl vs && negb (class_width vs) && negb ovf)) || has_injected cl vs l
+            | EDone => (cl && err_ok) || has_injected cl vs l
             | _ => true
             end)
         then [] else [(5%nat, ktag 6%N)]) ++
@@ -402,7 +435,7 @@ Definition check_case (c : case) : list (nat * N) :=
        (* an error is the documented answer to an invalid value, to a width
           beyond int64 and to a timestamp that would leave int64 (the last two
           only occur once the patches for KF-C20-1/2 are in) *)
-       if cfg_valid cl vs && negb (class_width vs) && negb ovf then [(8%nat, 9%N)] else []
+       if err_ok then [] else [(8%nat, 9%N)]
    | _ => []
    end).
 
